@@ -18,11 +18,44 @@ import (
 	"verif/h/emit"
 	"verif/h/gen"
 	"verif/h/hx"
+	"verif/h/kf"
 	"verif/h/lx"
 	"verif/h/mut"
 )
 
-func TestMain(m *testing.M) { hx.Main(m, "C15", nil) }
+// kfArgWrapper: known finding KF-C15-arg-wrapper is listed and still reproduces. The check then keeps
+// treating an attribute-carrying argument (*ir.Arg) as the slot's value and counts every such slot.
+var kfArgWrapper bool
+
+func TestMain(m *testing.M) {
+	hx.Main(m, "C15", func() {
+		kfArgWrapper = kf.Activate("KF-C15-arg-wrapper", func(in string) bool {
+			pm, err, p := lx.Parse(in)
+			if err != nil || p != nil || len(pm.Funcs) < 2 {
+				return false
+			}
+			f := pm.Funcs[len(pm.Funcs)-1]
+			if len(f.Params) < 2 {
+				return false
+			}
+			a, b := value.Value(f.Params[0]), value.Value(f.Params[1])
+			// substitute %a by %b through the operand slots of all users, comparing slot contents with the value
+			for _, blk := range f.Blocks {
+				for _, in := range blk.Insts {
+					if u, ok := in.(user); ok {
+						for _, slot := range u.Operands() {
+							if *slot == a {
+								*slot = b
+							}
+						}
+					}
+				}
+			}
+			out, pp := lx.Print(pm)
+			return pp == nil && strings.Contains(out, "signext %a")
+		})
+	})
+}
 
 var valueT = reflect.TypeOf((*value.Value)(nil)).Elem()
 
@@ -158,8 +191,12 @@ func checkUser(t hx.TB, test, where, ctx string, u user) {
 			continue
 		}
 		if a, ok := old.(*ir.Arg); ok {
-			// keep the argument attributes, replace the wrapped value
+			// keep the argument attributes, replace the wrapped value (see KF-C15-arg-wrapper: the slot
+			// holds the wrapper, not the value)
 			r = ir.NewArg(r, a.Attrs...)
+			if kfArgWrapper {
+				kf.Hit("KF-C15-arg-wrapper")
+			}
 		}
 		*slot = r
 		var p1 string
